@@ -459,4 +459,6 @@ def _lz(mod, fn, rid):
     return run
 
 # a stub in the wrong layer is a second item of that layer at the label's own position: the chain rules of C04 are part of C01
-RULES = [sort_rule, chain_rule, gap_rule, opts_rule, stubpred, solve_rule, writeback, lastwriter, alllayers, _target, _reset, state_rule] + vpsc_pack.FEAS + [_lz("c04", "stubchain_instance", "C04.STUBCHAIN"), _lz("c04", "stubchain", "C04.STUBCHAIN-ALL-N"), _lz("c03", "layerwidth", "C03.LAYERWIDTH")]
+# each engine starts from a private copy of the defaults and hands the caller's options on: spacing and bounds set on one
+# engine must not leak into the module defaults / other engines (C04.OPTFLOW)
+RULES = [sort_rule, chain_rule, gap_rule, opts_rule, stubpred, solve_rule, writeback, lastwriter, alllayers, _target, _reset, state_rule] + vpsc_pack.FEAS + [_lz("c04", "stubchain_instance", "C04.STUBCHAIN"), _lz("c04", "stubchain", "C04.STUBCHAIN-ALL-N"), _lz("c03", "layerwidth", "C03.LAYERWIDTH"), _lz("c04", "optflow", "C04.OPTFLOW")]
